@@ -118,7 +118,10 @@ def linform(tu, e, env, depth=0):
     if k == 'DeclRefExpr':
         d = e['referencedDecl']
         if d.get('id') in env:
-            return linform(tu, env[d['id']], env, depth + 1)
+            v = env[d['id']]
+            if isinstance(v, tuple) and v and v[0] == 'bound':      # a parameter bound to an argument of the caller's scope
+                return linform(tu, v[1], v[2], depth + 1)
+            return linform(tu, v, env, depth + 1)
         if d.get('name') in NAMED_CONST and NAMED_CONST[d['name']] is not None:
             return {1: NAMED_CONST[d['name']]}
         raise NotLinear(tu.show(e))
@@ -189,6 +192,88 @@ def guard_constraints(tu, cond, truth, env):
     return pos if truth else neg
 
 
+def _const_id(tu, e):
+    """identity of a constant expression: the enumerator it names, else its value"""
+    e = tu.strip(e, casts=True)
+    while e is not None and e.get('kind') in ('ConstantExpr', 'ParenExpr') and tu.kids(e):
+        e = tu.strip(tu.kids(e)[0], casts=True)
+    if e is None:
+        return None
+    if e.get('kind') == 'DeclRefExpr' and e.get('referencedDecl', {}).get('kind') == 'EnumConstantDecl':
+        return ('enum', e['referencedDecl'].get('id'))
+    cv = tu.sd(e).get('cv')
+    return ('val', cv) if cv is not None else None
+
+
+def _classifier_guards(tu, call, case_expr, env):
+    """alternatives of linear constraints under which the classifier call returns the constant of this case.  The classifier is a chain
+    `if (c) return K1; ... return c ? Kn : Km;` over its parameters, which are bound to the call's arguments."""
+    c = tu.strip(call, casts=True)
+    if c is None or c.get('kind') not in ('CallExpr', 'CXXMemberCallExpr'):
+        raise NotLinear('switch condition `%s` is not a call of a classifier' % tu.show(call)[:60])
+    cf = tu.callee_fn(c)
+    if cf is None or tu.body(cf) is None:
+        raise NotLinear('classifier `%s` has no body here' % tu.show(call)[:60])
+    want = _const_id(tu, case_expr)
+    if want is None:
+        raise NotLinear('case label `%s` is not a constant' % tu.show(case_expr)[:40])
+    env2 = dict(env)
+    for pp, a in zip(cf.get('params', []), tu.call_parts(c)[2]):
+        env2[pp['id']] = ('bound', a, env)
+    paths = []          # (list of (cond, truth), returned expression)
+
+    def ret_paths(e, conds):
+        e0 = tu.strip(e, casts=True)
+        if e0 is not None and e0.get('kind') == 'ConditionalOperator':
+            cnd, a, b = tu.kids(e0)[:3]
+            ret_paths(a, conds + [(cnd, True)])
+            ret_paths(b, conds + [(cnd, False)])
+        else:
+            paths.append((conds, e))
+
+    def walk(stmts, conds):
+        """True when every path through stmts returns"""
+        for st in stmts:
+            k = st.get('kind')
+            if k == 'ReturnStmt' and tu.kids(st):
+                ret_paths(tu.kids(st)[0], conds)
+                return True
+            if k == 'IfStmt':
+                ks = tu.kids(st)
+                th = tu.kids(ks[1]) if ks[1].get('kind') == 'CompoundStmt' else [ks[1]]
+                t_all = walk(th, conds + [(ks[0], True)])
+                if len(ks) > 2:
+                    el = tu.kids(ks[2]) if ks[2].get('kind') == 'CompoundStmt' else [ks[2]]
+                    e_all = walk(el, conds + [(ks[0], False)])
+                    if t_all and e_all:
+                        return True
+                    if t_all != e_all:
+                        raise NotLinear('classifier: an if with one returning arm and an else')
+                elif t_all:
+                    conds = conds + [(ks[0], False)]
+                else:
+                    raise NotLinear('classifier: statement `%s` not followed' % tu.show(st)[:40])
+                continue
+            if k in ('NullStmt',):
+                continue
+            raise NotLinear('classifier: statement `%s` not followed' % tu.show(st)[:40])
+        return False
+    if not walk(tu.kids(tu.body(cf)), []):
+        raise NotLinear('classifier `%s` can fall off its end' % cf['q'].split('::')[-1])
+    alts = []
+    for conds, e in paths:
+        if _const_id(tu, e) != want:
+            continue
+        cur = [[]]
+        for cnd, truth in conds:
+            new = guard_constraints(tu, cnd, truth, env2)
+            cur = [a + nn for a in cur for nn in new]
+        alts.extend(cur)
+    if not alts:
+        alts = [[{1: -1.0}]]        # the classifier never returns this constant: infeasible (-1 >= 0)
+    return alts
+
+
 def check_branch_conditioning(ctx, tu):
     """P8c: in the quaternion-from-matrix constructor every branch takes the reciprocal square root of a pivot t; the guards
     under which a branch is taken must imply t >= 1 for every matrix with entries in [-1, 1] (Shepperd's choice of the
@@ -250,10 +335,17 @@ def check_branch_conditioning(ctx, tu):
                         break
                     p = ps[0]
                     pb = g.blocks[p]
-                    if pb.cond is not None and len(pb.succ) == 2 and cur in pb.succ:
+                    lab = tu.node(g.blocks[cur].label) if g.blocks[cur].label else None
+                    if pb.cond is not None and lab is not None and lab.get('kind') == 'CaseStmt' and cur in pb.succ:
+                        # a switch over the result of a classifier function: the guards are the classifier's path conditions for this case
+                        new = _classifier_guards(tu, tu.node(pb.cond), tu.kids(lab)[0], env)
+                        alts = [a + nn for a in alts for nn in new]
+                    elif pb.cond is not None and len(pb.succ) == 2 and cur in pb.succ:
                         truth = (pb.succ[0] == cur)
                         new = guard_constraints(tu, tu.node(pb.cond), truth, env)
                         alts = [a + nn for a in alts for nn in new]
+                    elif pb.cond is not None and len([x for x in pb.succ if x is not None]) > 2:
+                        raise NotLinear('multi-way branch `%s` not followed' % tu.show(tu.node(pb.cond))[:60])
                     cur = p
             except NotLinear as e:
                 ctx.undecided(R, inst, 'pivot or guard is not a linear form over the matrix entries: %s' % e, tu.loc(x))
@@ -663,6 +755,11 @@ def _mat_terms(tu, e, env, cls, depth=0):
         if d in env:
             return dict(env[d])
         raise _NoForm('value of `%s` not tracked' % e['referencedDecl'].get('name'))
+    if k == 'CXXThisExpr' or (k == 'UnaryOperator' and e.get('opcode') == '*' and
+                              (tu.strip(tu.kids(e)[0]) or {}).get('kind') == 'CXXThisExpr'):
+        if 'this' in env:
+            return dict(env['this'])          # inside a followed member helper: the object it was called on
+        raise _NoForm('`*this` outside a followed member helper')
     if k in ('CXXConstructExpr', 'CXXTemporaryObjectExpr', 'CXXFunctionalCastExpr'):
         ks = tu.kids(e)
         if len(ks) == 1:
@@ -678,6 +775,13 @@ def _mat_terms(tu, e, env, cls, depth=0):
                 return {(i, not t): c for (i, t), c in _mat_terms(tu, obj, env, cls, depth + 1).items()}
             if name == 'inverse' and not args:
                 return _invert(_mat_terms(tu, obj, env, cls, depth + 1))
+            h = _single_return(tu, e) if k == 'CXXMemberCallExpr' else None
+            if h is not None:
+                # a one-line member helper (e.g. `polarStep()`): its body, with *this standing for the object it is called on
+                fn, ret = h
+                env2 = _bind(tu, fn, args, env, cls, depth)
+                env2['this'] = _mat_terms(tu, obj, env, cls, depth + 1)
+                return _mat_terms(tu, ret, env2, cls, depth + 1)
             raise _NoForm(tu.show(e))
         if name == 'rcp' and len(args) == 1:
             return _invert(_mat_terms(tu, args[0], env, cls, depth + 1))
@@ -732,6 +836,10 @@ def _measure(tu, c, env, scal, cls, depth=0):
     c = tu.strip(c)
     if c is None or depth > 6:
         raise _NoForm('?')
+    if c.get('kind') == 'DeclRefExpr' and c['referencedDecl'].get('id') in scal and \
+            'bool' in c.get('type', {}).get('qualType', ''):
+        c2, env2 = scal[c['referencedDecl']['id']]          # `const bool converged = <test>;` evaluated where it was declared
+        return _measure(tu, c2, env2, scal, cls, depth + 1)
     if c.get('kind') in ('CallExpr', 'CXXMemberCallExpr'):
         h = _single_return(tu, c)
         sd, obj, args = tu.call_parts(c)
@@ -745,6 +853,13 @@ def _measure(tu, c, env, scal, cls, depth=0):
     if m.get('kind') == 'DeclRefExpr' and m['referencedDecl'].get('id') in scal:
         m, env = scal[m['referencedDecl']['id']]
         m = tu.strip(m)
+    if m.get('kind') == 'CXXMemberCallExpr':
+        h = _single_return(tu, m)
+        sd_, obj_, args_ = tu.call_parts(m)
+        if h is not None and obj_ is not None and not args_:
+            # a one-line member measure (e.g. `(m_next - m).maxColumnLength2()`): its body over the object it is called on
+            env = {'this': _mat_terms(tu, obj_, env, cls)}
+            m = tu.strip(h[1])
     cols = {}
     if m.get('kind') == 'CallExpr' and tu.sd(m).get('q', '').split('::')[-1] == 'max' and len(tu.kids(m)) == 3:
         for d in tu.kids(m)[1:]:
@@ -814,6 +929,28 @@ def check_orthogonal(ctx, tu):
         cls = f['q'].rsplit('::', 1)[0]
         body = tu.body(f)
         loops = [x for x in tu.walk(body) if x.get('kind') in ('ForStmt', 'WhileStmt', 'DoStmt', 'CXXForRangeStmt')]
+        outer_stmt, outer_mid = None, None
+        if not loops:
+            # the iteration may live in a member helper that is applied to the iterate: `m = m.helper();`
+            for st in tu.kids(body):
+                st0 = tu.strip(st) if st.get('kind') == 'ExprWithCleanups' else st
+                if st0 is None or st0.get('kind') != 'CXXOperatorCallExpr' or not tu.sd(st0).get('q', '').endswith('operator=') or len(tu.kids(st0)) != 3:
+                    continue
+                rhs = tu.strip(tu.kids(st0)[2])
+                while rhs is not None and rhs.get('kind') in ('CXXConstructExpr', 'CXXTemporaryObjectExpr', 'CXXFunctionalCastExpr',
+                                                                'MaterializeTemporaryExpr', 'CXXBindTemporaryExpr') and len(tu.kids(rhs)) == 1:
+                    rhs = tu.strip(tu.kids(rhs)[0])
+                if rhs is None or rhs.get('kind') != 'CXXMemberCallExpr':
+                    continue
+                cf = tu.callee_fn(rhs)
+                obj = tu.call_parts(rhs)[1]
+                lhs = tu.ref_decl(tu.kids(st0)[1])
+                if cf is None or cf.get('dep') or tu.body(cf) is None or lhs is None or tu.ref_decl(obj) != lhs or tu.call_parts(rhs)[2]:
+                    continue
+                hl = [x for x in tu.walk(tu.body(cf)) if x.get('kind') in ('ForStmt', 'WhileStmt', 'DoStmt', 'CXXForRangeStmt')]
+                if len(hl) == 1:
+                    outer_stmt, outer_mid, body, loops = st, lhs, tu.body(cf), hl
+                    break
         if len(loops) != 1 or loops[0]['kind'] != 'ForStmt':
             ctx.undecided(R, inst, 'expected exactly one counted for-loop, found %s' % ([x['kind'] for x in loops] or 'none'), tu.fn_loc(f))
             continue
@@ -872,6 +1009,22 @@ def check_orthogonal(ctx, tu):
             ctx.undecided(R, inst, 'no single matrix iterate assigned in the loop body', tu.loc(loop))
             continue
         mid = list(assigned)[0]
+        if outer_stmt is not None:
+            # the helper must start its iterate from *this and hand the iterate back
+            mv = tu.nodes.get(mid)
+            init = tu.strip(tu.kids(mv)[-1]) if mv is not None and tu.kids(mv) else None
+            while init is not None and init.get('kind') in ('CXXConstructExpr', 'CXXTemporaryObjectExpr') and len(tu.kids(init)) == 1:
+                init = tu.strip(tu.kids(init)[0])
+            from_this = init is not None and init.get('kind') == 'UnaryOperator' and init.get('opcode') == '*' and \
+                (tu.strip(tu.kids(init)[0]) or {}).get('kind') == 'CXXThisExpr'
+            rets = [x for x in tu.walk(body) if x.get('kind') == 'ReturnStmt']
+            rv = tu.strip(tu.kids(rets[0])[0]) if len(rets) == 1 and tu.kids(rets[0]) else None
+            while rv is not None and rv.get('kind') in ('CXXConstructExpr', 'CXXTemporaryObjectExpr', 'ExprWithCleanups') and len(tu.kids(rv)) == 1:
+                rv = tu.strip(tu.kids(rv)[0])
+            back = rv is not None and tu.ref_decl(rv) == mid
+            if not (from_this and back):
+                ctx.undecided(R, inst, 'the helper holding the iteration does not start from *this and return its iterate', tu.loc(loop))
+                continue
         env = {mid: {(False, False): 1.0}}
         scal = {}
         breaks = []
@@ -983,7 +1136,8 @@ def check_orthogonal(ctx, tu):
             continue
         ctx.ok(R, inst, 'step (X + X^-T)/2; budget %d leaves |s-1| <= %.3g; early exit leaves |s-1| <= %.3g' % (trips, err_budget, err_break),
                tu.loc(loop))
-        check_orthogonal_mirror(ctx, tu, f, loop, mid, inst, key)
+        check_orthogonal_mirror(ctx, tu, f, outer_stmt if outer_stmt is not None else loop,
+                                outer_mid if outer_stmt is not None else mid, inst, key)
     ctx.floor(R, n, 2, 'LinearSpace2<vec2f>::orthogonal, LinearSpace2<vec2d>::orthogonal')
 
 
